@@ -550,7 +550,7 @@ pub fn run(prop: &str) {
             }
         }
     }
-    let budget = if thorough { 2400.0 } else { 45.0 };
+    let budget = mc::budget(thorough, 45.0, 1.0);
     let depth: usize = std::env::var("VERIF_DEPTH").ok().and_then(|v| v.parse().ok()).unwrap_or(if thorough { 40 } else { 6 });
     let start = clock::wall();
     let (mut states, mut trans, mut execs) = (0u64, 0u64, 0u64);
